@@ -379,8 +379,13 @@ RULE = ("A case is a pool configuration (max_connections in {1,2,3,4,None}, max_
 
 PROP = Prop(
     P, level="exploration", rule=RULE,
-    layers=[Layer("sequences", strategy=cases, execute=execute, budget={"quick": 2500, "thorough": 80000})],
-    assumptions=["the reference model is fed only by the harness's observations of the simulated wire (connect / close ops, which pipe carried a token)",
+    layers=[Layer("sequences", strategy=cases, execute=execute, budget={"quick": 2500, "thorough": 80000}),
+            __import__("vf.props.real", fromlist=["layer_for"]).layer_for("C09", {"quick": 400, "thorough": 12000})],
+    assumptions=["layer real-backends: HTTP/1.1 over real sockets through httpcore's own backends (where 'the server has closed the idle connection' is seen "
+                 "through the real socket-readability probe, also behind TLS and TLS-in-TLS): after a silent server-side close - the harness waits until "
+                 "the FIN has been sent, so no timing is involved - the next request must not fail; without any close a sequential caller uses one "
+                 "connection per host",
+                 "the reference model is fed only by the harness's observations of the simulated wire (connect / close ops, which pipe carried a token)",
                  "instants closer than 1 ms to an expiry deadline are not judged (no exact ties)",
                  "server-side closes are generated for idle HTTP/1.1 connections only (the property speaks of HTTP/1.1)",
                  "generated op sequences are interpreted with modular indices (shrinkable list) instead of a RuleBasedStateMachine so that the "
